@@ -1,12 +1,13 @@
 CONSTANTS
   MaxW = 2
-  InitSize = 2
+  InitSize = 1
   Program <- ProgA
   RelPublish = TRUE
   AcqWorker = TRUE
   RelDone = TRUE
   AcqWait = TRUE
   LockedNotify = FALSE
+  SpuriousWake = FALSE
 SPECIFICATION FairSpec
 INVARIANTS NoDataRace ExactlyOnce TypeOK MutexOK
 PROPERTY Termination
